@@ -247,6 +247,69 @@ def main():
                 core.read_data_page_v2(io.BytesIO(page), helper, col_se, h2, md, Ident(), assign, 0, bool(c.get("use_cat")), 0, ph,
                                        selfmade=bool(c.get("selfmade")))
             return ["ok", [None if (x != x) else int(x) for x in assign], None, str(assign.dtype), spy.calls]
+        if fn == "dict_roundtrip":
+            # the REAL encoder's output through the REAL page readers: writer.encode_dict on the codes pandas holds for a
+            # categorical of `ncat` categories, wrapped into a v1 / v2 data page, read back as fastparquet reads its own files
+            import io
+            import pandas as pd
+            from fastparquet import parquet_thrift as pt, schema, core, writer
+            cdt = pd.Categorical.from_codes([0], categories=range(c["ncat"])).codes.dtype     # pandas' code dtype for that many categories
+            codes = np.array(c["codes"], dtype=cdt)
+            enc = bytes(writer.encode_dict(pd.Series(codes), None))
+            n = c["n"]
+            lv = c["levels"]
+            root_se = pt.SchemaElement(name="schema", num_children=1)
+            col_se = pt.SchemaElement(name="c", type=pt.Type.INT32,
+                                      repetition_type=pt.FieldRepetitionType.OPTIONAL if c["optional"] else pt.FieldRepetitionType.REQUIRED)
+            helper = schema.SchemaHelper([root_se, col_se])
+            head = b""
+            if c["optional"]:
+                bits = bytearray((n + 7) // 8)
+                for i, b_ in enumerate(lv):
+                    bits[i // 8] |= b_ << (i % 8)
+                hv = ((n + 7) // 8) << 1 | 1
+                hb = bytearray()
+                while hv > 127:
+                    hb.append((hv & 127) | 128)
+                    hv >>= 7
+                hb.append(hv)
+                head = bytes(hb) + bytes(bits)
+            out = {"enc": enc.hex(), "codes_dtype": str(cdt)}
+            md = pt.ColumnMetaData(type=pt.Type.INT32, path_in_schema=["c"], codec=0, num_values=n, encodings=[8],
+                                   total_uncompressed_size=0, total_compressed_size=0, data_page_offset=0)
+            for selfmade in (True, False):
+                if not selfmade and enc[:1] == b"\x20":
+                    continue            # 32-bit bit-packed runs through the generic decoder: the open .pyx finding
+                # v1
+                page = (len(head).to_bytes(4, "little") + head if c["optional"] else b"") + enc
+                daph = pt.DataPageHeader(num_values=n, encoding=pt.Encoding.RLE_DICTIONARY,
+                                         definition_level_encoding=pt.Encoding.RLE, repetition_level_encoding=pt.Encoding.RLE)
+                header = pt.PageHeader(type=0, uncompressed_page_size=len(page), compressed_page_size=len(page), data_page_header=daph)
+                try:
+                    defi, rep, values = core.read_data_page(io.BytesIO(page), helper, header, md, selfmade=selfmade)
+                    out["v1/%s" % selfmade] = [int(x) for x in np.asarray(values)]
+                except Exception as e:       # noqa
+                    out["v1/%s" % selfmade] = ["exc", type(e).__name__, str(e)[:100]]
+                # v2: categorical output and dictionary de-reference
+                page = head + enc
+                nn = n - len(c["codes"])
+                for use_cat in (True, False):
+                    h2 = pt.DataPageHeaderV2(num_values=n, num_nulls=nn, num_rows=n, encoding=pt.Encoding.RLE_DICTIONARY,
+                                             definition_levels_byte_length=len(head), repetition_levels_byte_length=0, is_compressed=False)
+                    ph = pt.PageHeader(type=3, uncompressed_page_size=len(page), compressed_page_size=len(page), data_page_header_v2=h2)
+
+                    class Ident:
+                        def __getitem__(self, idx):
+                            # (a dictionary of ncat entries: label k = k; numpy's negative indexing included)
+                            return np.arange(c["ncat"], dtype=np.int64)[np.asarray(idx)]
+                    assign = np.full(n, -7, dtype=cdt) if use_cat else np.full(n, -7, dtype=np.float64 if c["optional"] else np.int64)
+                    try:
+                        core.read_data_page_v2(io.BytesIO(page), helper, col_se, h2, md, Ident(), assign, 0, use_cat, 0, ph,
+                                               selfmade=selfmade)
+                        out["v2/%s/%s" % (selfmade, "cat" if use_cat else "deref")] = [None if (x != x) else int(x) for x in assign]
+                    except Exception as e:       # noqa
+                        out["v2/%s/%s" % (selfmade, "cat" if use_cat else "deref")] = ["exc", type(e).__name__, str(e)[:100]]
+            return ["ok", out]
         if fn == "page_delta":
             # the Python callers of delta_binary_unpack: core.read_data_page / read_data_page_v2 on a DELTA_BINARY_PACKED page
             import io
